@@ -24,7 +24,7 @@ ASSUMES = ["'entry equals stand-alone metric' is proved for Mean/RatioOfMeans (r
 def _ids(rng, k):
     kind = rng.choice(["int", "int", "str", "bool"])
     if kind == "int":
-        return sorted(rng.sample([0, 1, 2, 3, 5, 10], k))
+        return sorted(rng.sample([-3, -1, 0, 1, 2, 3, 5, 10], k))      # 0 is falsy and need not be the smallest id
     if kind == "str":
         return sorted(rng.sample(["a", "b", "c", "ctrl", "B"], k))
     return [False, True]
@@ -36,7 +36,7 @@ def _case(rng):
     if isinstance(variants[0], bool):
         k = 2
     return {"metrics": expx.make_metrics(rng, kinds=("mean", "ratio", "srm", "custom_aggr", "quantile", "custom_gran")),
-            "variants": variants, "control": rng.choice([None, None, variants[0], variants[-1]]),
+            "variants": variants, "control": rng.choice([None, None] + list(variants)),
             "all_variants": rng.random() < 0.6, "backend": rng.choice(B.KINDS), "data_seed": rng.randint(0, 10**9)}
 
 
